@@ -61,7 +61,13 @@ type gFilter struct {
 func condJSON(cs []gCond) []interface{} {
 	out := make([]interface{}, 0, len(cs))
 	for _, c := range cs {
-		out = append(out, []interface{}{c.Key, obj{"t": c.Kind, "v": c.Val}})
+		o := obj{"t": c.Kind, "v": c.Val}
+		if c.Kind == "regex" {
+			if _, err := regexp.Compile(c.Val); err != nil {
+				o["bad"] = true // an expression the engine rejects: the decoder drops the condition (model: Decode.buildMatchers)
+			}
+		}
+		out = append(out, []interface{}{c.Key, o})
 	}
 	return out
 }
@@ -191,7 +197,7 @@ func buildListener(fs []*gFilter) *xdsresource.ListenerResource {
 var (
 	c08Keys    = []string{"k1", "k2", "k3"}
 	c08Vals    = []string{"v1", "v2", "abc", "ab", "b", "xv1"}
-	c08Regexes = []string{"^a.*", "v[12]", "b$", "^ab?c?$", ".", ".*", "^(ab|b)?$", "x*", "v1"} // the last three accept the empty string: a condition on an absent key must still be false
+	c08Regexes = []string{"^a.*", "v[12]", "b$", "^ab?c?$", ".", ".*", "^(ab|b)?$", "x*", "v1", "a(?=b)", "("} // the two last ones are rejected by the engine; the last three accept the empty string: a condition on an absent key must still be false
 	c08Methods = []string{"m1", "m2", "echo"}
 )
 
@@ -207,10 +213,15 @@ func (g *c08gen) conds() []gCond {
 		n = 0
 	case 4, 5, 6, 7:
 		n = 1
+	case 8:
+		n = 3
 	default:
 		n = 2
 	}
 	keys := append([]string(nil), c08Keys...)
+	if n > len(keys) {
+		n = len(keys)
+	}
 	var out []gCond
 	for i := 0; i < n; i++ {
 		ki := g.r.intn(len(keys))
@@ -280,6 +291,9 @@ func (g *c08gen) httpCfg(pkg, svc string) *gCfg {
 	for i := 0; i < nv; i++ {
 		vh := &gVHost{Name: fmt.Sprintf("vh%d", i)}
 		nr := g.r.intn(5)
+		if g.r.chance(4) {
+			nr = 16 + g.r.intn(10) // a large virtual host (an index over the routes must not change their order)
+		}
 		for j := 0; j < nr; j++ {
 			vh.Routes = append(vh.Routes, g.route("http", pkg, svc))
 		}
@@ -506,7 +520,10 @@ func runC08(c *ctx) {
 		}
 		sort.Strings(vlist)
 		for _, re := range c08Regexes {
-			cre := regexp.MustCompile(re)
+			cre, cerr := regexp.Compile(re)
+			if cerr != nil {
+				continue
+			}
 			for _, v := range vlist {
 				rx = append(rx, []interface{}{re, v, cre.MatchString(v)})
 			}
@@ -618,7 +635,10 @@ func routeOverlap(c *ctx) {
 	oA := <-resA
 	rx := []interface{}{}
 	for _, re := range c08Regexes {
-		cre := regexp.MustCompile(re)
+		cre, cerr := regexp.Compile(re)
+		if cerr != nil {
+			continue
+		}
 		for _, v := range []string{"", "v1"} {
 			rx = append(rx, []interface{}{re, v, cre.MatchString(v)})
 		}
